@@ -13,7 +13,7 @@ import (
 func init() {
 	register(&propDef{
 		id: "C12", level: "other", run: runC12,
-		explanation: "Decided: the state discipline of the reference time and the constants, not the arithmetic over sequences. (R1) paired update: every store to decoder.timestamp is followed in the same block by a store to decoder.lastTimeOffset of (the stored timestamp, or the header byte) & 0x1F. (R2) who may re-base: timestamp is stored only in the compressed branch of parseDataMessage and in parseTimeStamp under kind == TimeUTC and field number == 253. (R3) constants/guards: compressedTimeMask == 0x1F, fieldNumTimeStamp == 253; the compressed update has the recognised form ts += (off - last) & mask with off = hdr & mask (other equivalent forms are reported as undecided); the compressed branch is guarded by timestamp != 0 and writes decodeDateTime(timestamp) into field 253; stores into the message in parseTimeStamp are dominated by u32 != 0xFFFFFFFF. (R4) epoch: timeBase is time.Date(1989, December, 31, 0,0,0,0, UTC), never reassigned; decodeDateTime adds dt seconds, encodeTime subtracts and divides by a second; IsBaseTime is Equal(timeBase); the local branch builds FixedZone(_, local - utc in seconds) and returns utc.In(zone), the no-reference branch uses offset 0. NOT decided: rollover arithmetic over long runs as computed values; both byte orders are covered by C02-R1. (R3 rebases-every-explicit) the explicit re-base is control-dependent, transitively, only on the invalid-value, kind and field-number tests.",
+		explanation: "Decided: the state discipline of the reference time and the constants, not the arithmetic over sequences. (R1) paired update: every store to decoder.timestamp is followed in the same block by a store to decoder.lastTimeOffset of (the stored timestamp, or the header byte) & 0x1F. (R2) who may re-base: timestamp is stored only in the compressed branch of parseDataMessage and in parseTimeStamp under kind == TimeUTC and field number == 253. (R3) constants/guards: compressedTimeMask == 0x1F, fieldNumTimeStamp == 253; the compressed update has the recognised form ts += (off - last) & mask with off = hdr & mask (other equivalent forms are reported as undecided); the compressed branch is guarded by timestamp != 0 and writes decodeDateTime(timestamp) into field 253; stores into the message in parseTimeStamp are dominated by u32 != 0xFFFFFFFF. (R4) epoch: timeBase is time.Date(1989, December, 31, 0,0,0,0, UTC), never reassigned; decodeDateTime adds dt seconds, encodeTime subtracts and divides by a second; IsBaseTime is Equal(timeBase); the local branch builds FixedZone(_, local - utc in seconds) and returns utc.In(zone), the no-reference branch uses offset 0. NOT decided: rollover arithmetic over long runs as computed values; both byte orders are covered by C02-R1. (R3 rebases-every-explicit) the explicit re-base is control-dependent, transitively, only on the invalid-value, kind and field-number tests. (R6-time-kind-history) the time kind (UTC / local) of every table row shared with the generator's golden outputs for the five bundled earlier SDK versions equals the kind generated there.",
 		trusted:     []string{"time.Time.Add/Sub/In/Equal and time.FixedZone semantics", "go/ssa dominator tree"},
 	})
 }
